@@ -189,6 +189,87 @@ theorem blocked_unit_of_sole_consumer_blocks_stop (s : Acc) (h : amachine.Reacha
     cases hac : (view p).access <;> simp_all [Access.shared]
   simp [hasToStop, he, hu]
 
+/-! ## 2b. request words of scheduler objects (repair of F14) -/
+
+/-- what an attachment of scheduler k as a main scheduler is, in the accounting machine -/
+def attaches (e : AEv) (k : SchedId) : Prop :=
+  (∃ x, e = .streamCreate x k) ∨ (∃ x, e = .replace x k)
+
+/-- **a freshly attached main scheduler carries no request, whatever its history**: whenever scheduler k becomes the
+main scheduler of a stream — stream creation with a given (possibly reused) scheduler, set_main_sched on a joined
+stream, completion of a same-stream replacement — its request word is clear afterwards: no FINISH left from a join of
+the stream it served before, no REPLACE left from having been replaced, no EXIT.  No hypothesis on the state: the
+word is cleared by the attachment itself (`xstream_init_main_sched`, `xstream_update_main_sched`,
+`thread_main_sched_func` store 0 before `used = ABTI_SCHED_MAIN`). -/
+theorem attach_clears_requests (s s' : Acc) (e : AEv) (k : SchedId) (ha : attaches e k)
+    (hs : astep s e = some s') : s'.req k = {} := by
+  rcases ha with ⟨x, rfl⟩ | ⟨x, rfl⟩
+  · simp only [astep] at hs
+    split at hs
+    · split at hs
+      · cases hs; simp
+      · cases hs
+    · cases hs
+  · simp only [astep] at hs
+    split at hs
+    · split at hs
+      · split at hs
+        · rename_i ro hro
+          cases hs
+          simp only [Model.Stop.discard, freeSched]
+          split <;> simp
+        · cases hs
+      · cases hs
+    · cases hs
+
+/-- … hence it does not stop by itself: until somebody requests it, `ABTI_sched_has_to_stop` of the freshly attached
+main scheduler answers FALSE whatever its pools hold (before the repair a reused scheduler stopped at once) -/
+theorem attached_sched_keeps_running (s s' : Acc) (e : AEv) (k : SchedId) (ha : attaches e k)
+    (hs : astep s e = some s') (v1 v2 : List PoolView) :
+    hasToStop (s'.req k) v1 (s'.req k) v2 .main = false := by
+  rw [attach_clears_requests s s' e k ha hs]
+  exact no_stop_without_request {} {} v1 v2 .main rfl rfl rfl (by decide)
+
+/-- F14, first repro: user-owned scheduler 1 over pool 7 serves stream 1, the stream is joined and freed (scheduler 1
+survives with FINISH), stream 2 is created with the same scheduler -/
+def reuseFinishTrace : List AEv :=
+  [.poolCreate 7 false, .schedCreate 1 [7] false, .streamCreate 1 1, .join 1, .streamFree 1, .streamCreate 2 1]
+
+/-- the scheduler does keep FINISH after its stream is gone … -/
+example : ∃ s, amachine.run amachine.init (reuseFinishTrace.take 5) = some s ∧ (s.req 1).finish = true ∧
+    s.scheds.map (·.used) = [.notUsed] := ⟨_, rfl, by decide, by decide⟩
+
+/-- … the reuse is accepted and ends in a running stream 2 whose scheduler has a clear request word -/
+example : ∃ s, amachine.run amachine.init reuseFinishTrace = some s ∧ s.main? 2 = some 1 ∧ s.joined 2 = false ∧
+    s.req 1 = {} ∧ s.ns 7 = 1 ∧ s.scheds.map (·.used) = [.main] :=
+  ⟨_, rfl, by decide, by decide, by decide, by decide, by decide⟩
+
+/-- F14, second repro: user-owned scheduler 1 is replaced on the running stream 1 by scheduler 2 (it survives with
+REPLACE), then stream 2 is created with it -/
+def reuseReplacedTrace : List AEv :=
+  [.poolCreate 1 false, .poolCreate 2 false, .schedCreate 1 [1] false, .streamCreate 1 1, .schedCreate 2 [2] true,
+   .replace 1 2, .streamCreate 2 1]
+
+example : ∃ s, amachine.run amachine.init (reuseReplacedTrace.take 6) = some s ∧ (s.req 1).replace = true ∧
+    s.main? 1 = some 2 := ⟨_, rfl, by decide, by decide⟩
+
+example : ∃ s, amachine.run amachine.init reuseReplacedTrace = some s ∧ s.main? 2 = some 1 ∧ s.main? 1 = some 2 ∧
+    s.joined 2 = false ∧ s.req 1 = {} ∧ s.req 2 = {} :=
+  ⟨_, rfl, by decide, by decide, by decide, by decide, by decide⟩
+
+/-- a joined stream's scheduler is changed directly (no REPLACE on the old one, which keeps its FINISH), revive
+clears the word of the scheduler that is the main scheduler then -/
+example : ∃ s, amachine.run amachine.init [.poolCreate 1 false, .schedCreate 1 [1] false, .streamCreate 1 1, .join 1,
+      .schedCreate 2 [1] false, .replace 1 2, .join 1, .revive 1] = some s ∧
+    s.req 1 = { finish := true } ∧ s.req 2 = {} ∧ s.joined 1 = false :=
+  ⟨_, rfl, by decide, by decide, by decide⟩
+
+/-- rejected (still outside the model after the repair): the replaced scheduler keeps `p_replace_sched`; reused on a
+running stream and replaced *again* there, `xstream_update_main_sched` would take its "overwrite" branch on the
+dangling pointer (candidate defect, repro corpus/findings/cand_stop_reused_replaced_sched_replaced_again.c) -/
+example : amachine.run amachine.init (reuseReplacedTrace ++ [.poolCreate 3 false, .schedCreate 3 [3] true, .replace 2 3])
+    = none := by decide
+
 /-! ## 3. the join request reaches the running scheduler -/
 
 /-- **FINISH reaches every scheduler that runs after the join request**: once ABT_xstream_join / free has been
